@@ -145,6 +145,35 @@ def run(ctx):
             s.close()
         reqs.append(session.model_request(history, files))
         metas.append((files, history))
+    # ---------------- a failing require caught inside module code leaves nothing behind: the enclosing module loads, loads once,
+    # and can be required again under every form
+    files = {"Turbo.ckl": "println('load Turbo'); def half = 1; error 'no turbo';\n",
+             "Engine.ckl": "println('load Engine'); def mode = 'plain'; do require Turbo; mode = 'turbo' catch 'no turbo' mode = 'plain' end; def rev() mode;\n",
+             "Car.ckl": "println('load Car'); require Engine; def drive() Engine->rev();\n"}
+    history = ["require Engine; Engine->mode", "require Engine as E2; E2->rev()", "require Engine import [mode as m9]; m9", "require Car; Car->drive()",
+               "do require Turbo catch all 'caught' end", "do require Turbo catch all 'caught' end", "require Engine unqualified; rev()", "require Car as C2; C2->drive()",
+               "require Turbo"]
+    expected = [('val', ('s', 'plain'))] * 4 + [('val', ('s', 'caught'))] * 2 + [('val', ('s', 'plain'))] * 2 + [('rt', ('s', 'no turbo'))]
+    s = session.ImplSession(files)
+    try:
+        loads = {}
+        for src, want in zip(history, expected):
+            out, printed, syms = s.run(src)
+            ctx.seen(("caught-require", src), nontrivial=True)
+            for ln in printed.splitlines():
+                if ln.startswith("load "):
+                    loads[ln[5:]] = loads.get(ln[5:], 0) + 1
+            if out[:2] != want:
+                ctx.violation("oracle", f"`{src}` gives {out[:2]}, expected {want} (a module whose own code catches a failing require)",
+                              {"op": "history", "modules": files, "history": history})
+                break
+        for m_, c in loads.items():
+            if c > 1 and m_ != "Turbo":
+                ctx.violation("oracle", f"module {m_} was evaluated {c} times in one interpreter", {"op": "load-count", "modules": files, "history": history})
+    finally:
+        s.close()
+    reqs.append(session.model_request(history, files))
+    metas.append((files, history))
     # ---------------- model: replay every history
     if ctx.build.ok:
         resp = core.run_driver(reqs)
